@@ -61,6 +61,7 @@ def bounds(tier):
 def shards(tier):
     nk = len(kinds(tier))
     out = [("lists", n, k0, si) for n in (1, 2, 3) for k0 in range(nk) for si in range(len(SETTINGS))]
+    out += [("empty", 0, 0, si) for si in range(len(SETTINGS))]
     ne = len(exon_sets(tier))
     step = 8 if tier == "quick" else 64
     out += [("introns", i, min(i + step, ne)) for i in range(0, ne, step)]
@@ -131,6 +132,7 @@ def body_lists(ch, ctx):
     offset = ch.choose("offset", (0, 2 ** 17 - 3)) if n <= 2 else 0
     switch = ch.choose("always_return_list", (True, False)) if n <= 2 else True
     chosen = [((s + offset, e + offset), q, st) for (s, e), q, st in chosen]
+    same_attrs = ch.flag("identical_attributes") if n <= 2 else False       # e.g. exons that carry nothing but Parent=
     db = get_db(ctx)
     feats, objs = [], []
     for i, ((s, e), seqid, strand) in enumerate(chosen):
@@ -138,6 +140,8 @@ def body_lists(ch, ctx):
                  "lvl": ["2", "10"]}
         if i % 2 == 0:
             attrs["only_here"] = ["zeta", "alpha", "zeta", "9", "10"]       # on every other feature only
+        if same_attrs:
+            attrs = {"Parent": ["t2", "t1b", "t2"], "rank": ["10", "9"]}     # identical on every feature, unsorted, with a repeat
         ft = ("exon", "CDS")[i % 2]
         feats.append(dict(seqid=seqid, start=s, end=e, strand=strand, ft=ft, attrs=attrs))
         objs.append(gffutils.Feature(seqid=seqid, source="s", featuretype=ft, start=s, end=e, strand=strand,
@@ -196,6 +200,8 @@ def body_introns(ch, ctx):
         seq = sorted(exs) if order == "asc" else sorted(exs, reverse=True)
         for j, (a, b) in enumerate(seq):
             lines.append("c1\ts\texon\t%d\t%d\t.\t%s\t.\tID=%s_e%d_%d;Parent=%s;num=%d;lvl=2,10" % (a, b, strand, t, a, b, t, 10 - j))
+    lines.append("c1\ts\tmRNA\t30\t40\t.\t%s\t.\tID=t3;Parent=g1" % strand)          # a transcript with a CDS but no exon at all
+    lines.append("c1\ts\tCDS\t31\t39\t.\t%s\t0\tID=t3c;Parent=t3" % strand)
     path = dbutil.write_text(ctx.fresh_dir(), "in.gff", "\n".join(lines) + "\n")
     db = gffutils.create_db(path, ":memory:", verbose=False)
     before = dbutil.canon(db)
@@ -216,6 +222,16 @@ def body_introns(ch, ctx):
     finally:
         constants.always_return_list = orig
     ctx.check(dbutil.canon(db) == before, "database-modified", sig, file=lines)
+    # a gene added later through update() on the same object is seen by the next call
+    new = ["c2\ts\tgene\t1\t30\t.\t+\t.\tID=g9", "c2\ts\tmRNA\t1\t30\t.\t+\t.\tID=t9;Parent=g9",
+           "c2\ts\texon\t1\t5\t.\t+\t.\tID=t9a;Parent=t9", "c2\ts\texon\t20\t30\t.\t+\t.\tID=t9b;Parent=t9"]
+    from gffutils.feature import feature_from_line
+    db.update([feature_from_line(t) for t in new], make_backup=False)
+    got = sorted((f.seqid, f.start, f.end) for f in db.create_introns())
+    want = sorted([("c1", s_, e_) for (_, s_, e_) in exp] + [("c2", 6, 19)])
+    ctx.check(got == want, "introns-after-update-differ", sig, got=got, expected=want)
+    n_sites = len(list(db.create_splice_sites()))
+    ctx.check(n_sites == 2 * len(want), "splice-sites-after-update-differ", sig, got=n_sites, expected=2 * len(want))
 
 
 def _introns_checks(ctx, db, exp, strand, lines, sig):
@@ -243,7 +259,26 @@ def _introns_checks(ctx, db, exp, strand, lines, sig):
         ctx.check(len({x[5] for x in sites}) == len(sites), "splice-site-ids-not-distinct", dict(sig, selection=sel), got=[x[5] for x in sites])
 
 
+def body_empty(ch, ctx):
+    """No feature at all (list, tuple, exhausted generator, a query without hits): nothing is yielded, nothing raises."""
+    si = ctx.shard[3]
+    form = ch.choose("form", ("list", "tuple", "generator", "query"))
+    db = get_db(ctx)
+    data = {"list": [], "tuple": (), "generator": (x for x in []), "query": db.features_of_type("no_such_type")}[form]
+    ctx.sample(lambda: dict(empty_input=form, setting=si))
+    ctx.nontrivial()
+    ctx.outcome(("empty", form, si))
+    try:
+        got = list(db.interfeatures(data, **SETTINGS[si]))
+    except Exception as e:
+        ctx.fail("interfeatures-raised-on-empty-input", dict(form=form, exc=type(e).__name__), message=str(e)[:200])
+        return
+    ctx.check(got == [], "interfeatures-yields-for-empty-input", dict(form=form), got=[str(g) for g in got])
+
+
 def body(ch, ctx):
+    if ctx.shard[0] == "empty":
+        return body_empty(ch, ctx)
     if ctx.shard[0] == "lists":
         body_lists(ch, ctx)
     else:
